@@ -425,7 +425,7 @@ def int_clip(x, val_min, val_max):
 def wrap(x, signed, n_word):
 
     m = (1 << n_word)
-    if n_word >= _n_word_max:
+    if n_word >= _n_word_max or np.asarray(x).dtype == object:
         dtype = object
         x = int_array(x).astype(dtype) & (m - 1)
     else:
@@ -482,7 +482,7 @@ def int_array(x):
         x = np.array(x)
 
     if x.dtype != complex:
-        x = np.array(list(map(int, x.flatten()))).reshape(x.shape)
+        x = np.array(list(map(int, x.flatten())), dtype=object if x.dtype == object else None).reshape(x.shape)
     else:
         x_real = np.vectorize(lambda v: v.real)(x)
         x_imag = np.vectorize(lambda v: v.imag)(x)
